@@ -829,4 +829,235 @@ theorem Confined2.swap : ∀ (ws : List (Bool × Write)) (A B : Nat → Prop) (h
       obtain ⟨h1, h2⟩ := hc
       exact ⟨h1, ih _ _ _ h2⟩
 
+
+/-! ### Without `needs` guards the flag is never raised -/
+
+def NoFlagRec (rec : CloneRec) : Prop :=
+  ∀ via h a h' a' q, rec via h a = some (h', a', q) → q = false
+
+theorem cloneElem_noflag {rec : CloneRec} (hrec : NoFlagRec rec) {ev : Option Nat} {g : Guard} {h : Heap}
+    {v : FVal} {h1 : Heap} {v' : FVal} {q : Bool} (hc : cloneElem rec ev g h v = some (h1, v', q)) :
+    q = false := by
+  cases v with
+  | val x =>
+    cases ev with
+    | none =>
+      simp only [cloneElem, Option.some.injEq, Prod.mk.injEq] at hc
+      exact hc.2.2.symm
+    | some via => simp [cloneElem] at hc
+  | lib o => simp [cloneElem] at hc
+  | ref o =>
+    cases o with
+    | none =>
+      cases ev with
+      | none => simp [cloneElem] at hc
+      | some via =>
+        cases g with
+        | nilOk =>
+          simp only [cloneElem, Option.some.injEq, Prod.mk.injEq] at hc
+          exact hc.2.2.symm
+        | nilPanics => simp [cloneElem] at hc
+        | needs i => simp [cloneElem] at hc
+    | some a =>
+      cases ev with
+      | none => simp [cloneElem] at hc
+      | some via =>
+        simp only [cloneElem] at hc
+        cases hr : rec via h a with
+        | none => simp [hr] at hc
+        | some res =>
+          obtain ⟨h', a', q'⟩ := res
+          simp only [hr, Option.some.injEq, Prod.mk.injEq] at hc
+          rw [← hc.2.2]
+          exact hrec via h a h' a' q' hr
+
+theorem cloneElems_noflag {rec : CloneRec} (hrec : NoFlagRec rec) {ev : Option Nat} {g : Guard} :
+    ∀ {vs : List FVal} {h h1 : Heap} {vs' : List FVal} {q : Bool},
+    cloneElems rec ev g h vs = some (h1, vs', q) → q = false := by
+  intro vs
+  induction vs with
+  | nil =>
+    intro h h1 vs' q hc
+    simp only [cloneElems, Option.some.injEq, Prod.mk.injEq] at hc
+    exact hc.2.2.symm
+  | cons v vs ih =>
+    intro h h1 vs' q hc
+    simp only [cloneElems] at hc
+    cases he : cloneElem rec ev g h v with
+    | none => simp [he] at hc
+    | some r1 =>
+      obtain ⟨hm, v', q1⟩ := r1
+      simp only [he] at hc
+      cases ht : cloneElems rec ev g hm vs with
+      | none => simp [ht] at hc
+      | some r2 =>
+        obtain ⟨h2, vs2, q2⟩ := r2
+        simp only [ht, Option.some.injEq, Prod.mk.injEq] at hc
+        rw [← hc.2.2, cloneElem_noflag hrec he, ih ht]
+        rfl
+
+theorem cloneField_noflag {rec : CloneRec} (hrec : NoFlagRec rec) {h : Heap} {fr : FieldRow} {v : FVal}
+    (hN : ∀ via i, fr.treat ≠ .deep via (.needs i))
+    {h1 : Heap} {v' : FVal} {q : Bool} (hc : cloneField rec h fr v = some (h1, v', q)) : q = false := by
+  unfold cloneField at hc
+  cases hfit : fits fr.kind v with
+  | false => simp [hfit] at hc
+  | true =>
+    simp only [hfit, if_true] at hc
+    have viaRec : ∀ {via a h1 v' q}, (match rec via h a with
+        | some (h', a', q) => some (h', FVal.ref (some a'), q)
+        | none => none) = some (h1, v', q) → q = false := by
+      intro via a h1 v' q hc
+      cases hr : rec via h a with
+      | none => simp [hr] at hc
+      | some res =>
+        obtain ⟨h', a', q'⟩ := res
+        simp only [hr, Option.some.injEq, Prod.mk.injEq] at hc
+        rw [← hc.2.2]
+        exact hrec via h a h' a' q' hr
+    cases htr : fr.treat with
+    | copied =>
+      rw [htr] at hc
+      cases v with
+      | val x =>
+        simp only [Option.some.injEq, Prod.mk.injEq] at hc
+        exact hc.2.2.symm
+      | lib o => simp at hc
+      | ref o => cases o <;> simp at hc
+    | shared =>
+      rw [htr] at hc
+      simp only [Option.some.injEq, Prod.mk.injEq] at hc
+      exact hc.2.2.symm
+    | dropped =>
+      rw [htr] at hc
+      simp only [Option.some.injEq, Prod.mk.injEq] at hc
+      exact hc.2.2.symm
+    | deepLib =>
+      rw [htr] at hc
+      cases v with
+      | val x => simp at hc
+      | lib o =>
+        simp only [Option.some.injEq, Prod.mk.injEq] at hc
+        exact hc.2.2.symm
+      | ref o => cases o <;> simp at hc
+    | deep via g =>
+      rw [htr] at hc
+      cases g with
+      | needs i => exact absurd htr (hN via i)
+      | nilOk =>
+        cases v with
+        | val x => simp at hc
+        | lib o => simp at hc
+        | ref o =>
+          cases o with
+          | none =>
+            simp only [Option.some.injEq, Prod.mk.injEq] at hc
+            exact hc.2.2.symm
+          | some a => exact viaRec hc
+      | nilPanics =>
+        cases v with
+        | val x => simp at hc
+        | lib o => simp at hc
+        | ref o =>
+          cases o with
+          | none => simp at hc
+          | some a => exact viaRec hc
+    | deepSlice ev g =>
+      rw [htr] at hc
+      cases v with
+      | val x => simp at hc
+      | lib o => simp at hc
+      | ref o =>
+        cases o with
+        | none =>
+          simp only [Option.some.injEq, Prod.mk.injEq] at hc
+          exact hc.2.2.symm
+        | some a =>
+          simp only at hc
+          cases hcell : h[a]? with
+          | none => simp [hcell] at hc
+          | some c =>
+            obtain ⟨ty, elems⟩ := c
+            cases ty with
+            | some ty => simp [hcell] at hc
+            | none =>
+              simp only [hcell] at hc
+              cases hes : cloneElems rec ev g h elems with
+              | none => simp [hes] at hc
+              | some res =>
+                obtain ⟨hm, elems', q'⟩ := res
+                simp only [hes, Option.some.injEq, Prod.mk.injEq] at hc
+                rw [← hc.2.2]
+                exact cloneElems_noflag hrec hes
+
+theorem cloneFields_noflag {rec : CloneRec} (hrec : NoFlagRec rec) :
+    ∀ {frs : List FieldRow} {vs : List FVal} {h h1 : Heap} {vs' : List FVal} {q : Bool},
+    (∀ fr, fr ∈ frs → ∀ via i, fr.treat ≠ .deep via (.needs i)) →
+    cloneFields rec h frs vs = some (h1, vs', q) → q = false := by
+  intro frs
+  induction frs with
+  | nil =>
+    intro vs h h1 vs' q _ hc
+    cases vs with
+    | nil =>
+      simp only [cloneFields, Option.some.injEq, Prod.mk.injEq] at hc
+      exact hc.2.2.symm
+    | cons v vs => simp [cloneFields] at hc
+  | cons fr frs ih =>
+    intro vs h h1 vs' q hrows hc
+    cases vs with
+    | nil => simp [cloneFields] at hc
+    | cons v vs =>
+      simp only [cloneFields] at hc
+      cases he : cloneField rec h fr v with
+      | none => simp [he] at hc
+      | some r1 =>
+        obtain ⟨hm, v', q1⟩ := r1
+        simp only [he] at hc
+        cases ht : cloneFields rec hm frs vs with
+        | none => simp [ht] at hc
+        | some r2 =>
+          obtain ⟨h2, vs2, q2⟩ := r2
+          simp only [ht, Option.some.injEq, Prod.mk.injEq] at hc
+          rw [← hc.2.2, cloneField_noflag hrec (hrows fr (List.mem_cons_self ..)) he,
+            ih (fun fr' hfr' => hrows fr' (List.mem_cons_of_mem _ hfr')) ht]
+          rfl
+
+theorem noNeeds_field {t : List Row} (ht : noNeeds t = true) {row : Row} (hr : row ∈ t)
+    {fr : FieldRow} (hf : fr ∈ row.fields) : ∀ via i, fr.treat ≠ .deep via (.needs i) := by
+  intro via i h1
+  have := List.all_eq_true.mp (List.all_eq_true.mp ht row hr) fr hf
+  simp [h1] at this
+
+/-- A table without `needs` guards never raises the flag. -/
+theorem cloneAddr_noflag {t : List Row} (ht : noNeeds t = true) : ∀ fuel, NoFlagRec (cloneAddr t fuel) := by
+  intro fuel
+  induction fuel with
+  | zero =>
+    intro via h a h' a' q hc
+    simp [cloneAddr] at hc
+  | succ fuel ih =>
+    intro via h a h' a' q hc
+    simp only [cloneAddr] at hc
+    cases hcell : h[a]? with
+    | none => simp [hcell] at hc
+    | some c =>
+      obtain ⟨ty, fs⟩ := c
+      cases ty with
+      | none => simp [hcell] at hc
+      | some ty =>
+        simp only [hcell] at hc
+        cases hrow : findRow t via ty with
+        | none => simp [hrow] at hc
+        | some row =>
+          simp only [hrow] at hc
+          cases hfs : cloneFields (cloneAddr t fuel) h row.fields fs with
+          | none => simp [hfs] at hc
+          | some res =>
+            obtain ⟨h1, fs', q'⟩ := res
+            simp only [hfs, Option.some.injEq, Prod.mk.injEq] at hc
+            rw [← hc.2.2]
+            exact cloneFields_noflag ih
+              (fun fr hfr => noNeeds_field ht (List.mem_of_find?_eq_some hrow) hfr) hfs
+
 end InfluxQL.Heap
